@@ -65,14 +65,10 @@ impl<K, V> HashMap<K, V> {
         self.len == 0
     }
 
-    /// iterates the occupied slots in insertion order. a counter-based iterator: with a concrete
-    /// table the bounded model checker sees the end after at most CAP steps (a slice iterator's
-    /// pointer comparison is not folded and every consuming loop gets unwound to the global bound).
-    pub fn iter(&self) -> Iter<'_, K, V> {
-        Iter {
-            slots: &self.slots,
-            i: 0,
-        }
+    pub fn iter(&self) -> impl Iterator<Item = (&K, &V)> + '_ {
+        self.slots
+            .iter()
+            .filter_map(|s| s.as_ref().map(|(k, v)| (k, v)))
     }
 
     pub fn keys(&self) -> impl Iterator<Item = &K> + '_ {
@@ -81,28 +77,6 @@ impl<K, V> HashMap<K, V> {
 
     pub fn values(&self) -> impl Iterator<Item = &V> + '_ {
         self.iter().map(|(_, v)| v)
-    }
-}
-
-pub struct Iter<'a, K, V> {
-    slots: &'a [Option<(K, V)>; CAP],
-    i: usize,
-}
-
-impl<'a, K, V> Iterator for Iter<'a, K, V> {
-    type Item = (&'a K, &'a V);
-    fn next(&mut self) -> Option<Self::Item> {
-        while self.i < CAP {
-            let slot = &self.slots[self.i];
-            self.i += 1;
-            if let Some((k, v)) = slot {
-                return Some((k, v));
-            }
-        }
-        None
-    }
-    fn size_hint(&self) -> (usize, Option<usize>) {
-        (0, Some(CAP - self.i))
     }
 }
 
@@ -191,9 +165,9 @@ impl<K, V> IntoIterator for HashMap<K, V> {
 
 impl<'a, K, V> IntoIterator for &'a HashMap<K, V> {
     type Item = (&'a K, &'a V);
-    type IntoIter = Iter<'a, K, V>;
+    type IntoIter = Box<dyn Iterator<Item = (&'a K, &'a V)> + 'a>;
     fn into_iter(self) -> Self::IntoIter {
-        self.iter()
+        Box::new(self.iter())
     }
 }
 
